@@ -29,8 +29,10 @@ import (
 
 type World struct{ Scratch string }
 
-func (w *World) Name() string    { return "chain" }
-func (w *World) Props() []string { return []string{"C05", "C06", "C07", "C18", "C19", "C03", "C04"} }
+func (w *World) Name() string { return "chain" }
+func (w *World) Props() []string {
+	return []string{"C05", "C06", "C07", "C18", "C19", "C03", "C04", "C17"}
+}
 
 // forge kinds
 const (
@@ -530,7 +532,7 @@ func (e *env) doRestart() {
 }
 
 func (e *env) propOr(p string) string {
-	if e.prop == "C05" || e.prop == "C06" || e.prop == "C07" || e.prop == "C18" || e.prop == "C19" || e.prop == "C03" {
+	if e.prop == "C05" || e.prop == "C06" || e.prop == "C07" || e.prop == "C18" || e.prop == "C19" || e.prop == "C03" || e.prop == "C17" {
 		return e.prop
 	}
 	return p
@@ -637,6 +639,12 @@ func (e *env) doDeliver(l int) {
 	if x.Failed() {
 		return
 	}
+	if e.prop == "C17" {
+		e.checkAncestorSearch()
+		if x.Failed() {
+			return
+		}
+	}
 	e.checkInvariants("after-deliver")
 	x.Digest(e.prop, len(e.stored), e.heightOf(e.best), len(e.orph), len(e.builders))
 }
@@ -684,6 +692,67 @@ func (e *env) checkBest(when string, l int) {
 		}
 		p := e.propOr("C07")
 		x.Fail(p, cls, sig, fmt.Sprintf("%s of block %d (%s): node best = label %d height %d, specified best = label %d height %d", when, l, forgeName[e.blocks[l].kind], got, nb.BlockNo(), e.best, e.heightOf(e.best)), e.step)
+	}
+}
+
+// checkAncestorSearch (C17, responder side): a node asked for the common ancestor with a list of
+// block identifiers (the requester's anchors, highest first) must name the first identifier of the
+// list that is on ITS main chain - never a block of a side or abandoned branch it merely has
+// stored, and "none" if there is no such identifier. Lists are drawn from everything the node under
+// test has been offered: main chain, side branches, forged blocks, unknown identifiers.
+func (e *env) checkAncestorSearch() {
+	x := e.x
+	n := e.nut
+	r := simkit.NewRng(simkit.Mix(x.Case.Seed, uint64(1000+e.step)))
+	if len(e.blocks) == 0 {
+		return
+	}
+	for round := 0; round < 3; round++ {
+		var list [][]byte
+		cnt := 1 + r.Intn(6)
+		var picked []int
+		for i := 0; i < cnt; i++ {
+			picked = append(picked, r.Intn(len(e.blocks)))
+		}
+		// anchors are sent highest first
+		sort.Slice(picked, func(i, j int) bool { return e.blocks[picked[i]].height > e.blocks[picked[j]].height })
+		for _, l := range picked {
+			list = append(list, []byte(e.blocks[l].trueID))
+		}
+		if r.Chance(1, 4) {
+			list = append(list, simkit.Key32("unknown", e.step))
+		}
+		if r.Chance(1, 3) {
+			list = append(list, []byte(e.genesis))
+		}
+		var want []byte
+		for _, h := range list {
+			blk, err := n.CS.GetBlock(h)
+			if err != nil {
+				continue
+			}
+			mh, err := n.CS.GetHashByNo(blk.BlockNo())
+			if err == nil && bytes.Equal(mh, h) {
+				want = h
+				break
+			}
+		}
+		var got *types.BlockInfo
+		var err error
+		n.Do(func() { got, err = n.CS.VerifFindAncestor(list) })
+		switch {
+		case want == nil && err == nil && got != nil:
+			x.Fail("C17", "ancestor-not-on-main-chain", "responder", fmt.Sprintf("asked with %d identifiers none of which is on its main chain, the node named block %d as common ancestor", len(list), got.No), e.step)
+			return
+		case want != nil && (err != nil || got == nil || !bytes.Equal(got.Hash, want)):
+			x.Fail("C17", "wrong-ancestor", "responder", fmt.Sprintf("the first offered identifier on the node's main chain is %x, the node answered %v (err=%v)", want[:4], got, err), e.step)
+			return
+		}
+		if want == nil {
+			x.Probe("ancestor-search-none")
+		} else {
+			x.Probe("ancestor-search-found")
+		}
 	}
 }
 
